@@ -146,7 +146,8 @@ theorem hookF_cases {a0 : Arm} (hk : HK) (base : FCfg → Res) (x : FCfg) (h : A
     (∃ x', x'.l = x.l ∧ x'.fired = x.fired ∧ x'.rep = x.rep ∧ ArmOk a0 x' ∧ (x.arm = none → x'.arm = none) ∧
       ((a0.hk = hk ∧ a0.after = true ∧ x.fired = false ∧ x.arm ≠ none ∧ x'.arm = none ∧
           ((∃ y e, base x' = (y, some e) ∧ hookF hk base x = (y, some e)) ∨
-           (∃ y y', base x' = (y, none) ∧ hookF hk base x = (y', some faultExc) ∧ UpTo y y' ∧ y'.fired = true))) ∨
+           (∃ y y', base x' = (y, none) ∧ hookF hk base x = (y', some faultExc) ∧ y'.l = y.l ∧ y'.rep = y.rep ∧
+             y'.arm = none ∧ y'.fired = true))) ∨
        ((∃ y e, base x' = (y, some e) ∧ hookF hk base x = (y, some e)) ∨
         (∃ y y' e, base x' = (y, none) ∧ hookF hk base x = (y', e) ∧ (e = none ∨ e = some .assertion) ∧ UpTo y y' ∧
           y'.fired = y.fired ∧ (y.called = x'.called → e = none ∧ y'.called = x.called))))) := by
@@ -202,7 +203,7 @@ theorem hookF_cases {a0 : Arm} (hk : HK) (base : FCfg → Res) (x : FCfg) (h : A
         | mk y e =>
           cases e with
           | some e => left; exact ⟨y, e, rfl, rfl⟩
-          | none => right; exact ⟨y, { y with fired := true }, rfl, rfl, ⟨rfl, rfl, rfl⟩, rfl⟩
+          | none => right; exact ⟨y, { y with arm := none, fired := true }, rfl, rfl, rfl, rfl, rfl, rfl⟩
       · refine ⟨{ x with called := x.called + 1, arm := (armStep hk x.arm).2 }, rfl, rfl, rfl, hao _, fun _ => harm,
           Or.inl ⟨hhk, haf, hnf, hxa, harm, ?_⟩⟩
         unfold hookF supF
@@ -211,7 +212,7 @@ theorem hookF_cases {a0 : Arm} (hk : HK) (base : FCfg → Res) (x : FCfg) (h : A
         | mk y e =>
           cases e with
           | some e => left; exact ⟨y, e, rfl, rfl⟩
-          | none => right; exact ⟨y, { y with called := y.called - 1, fired := true }, rfl, rfl, ⟨rfl, rfl, rfl⟩, rfl⟩
+          | none => right; exact ⟨y, { y with called := y.called - 1, arm := none, fired := true }, rfl, rfl, rfl, rfl, rfl, rfl⟩
 
 end FP
 end PMF
